@@ -29,7 +29,18 @@ pub struct Case {
 
 pub struct C19;
 
-const LETTER_SETS: &[&[&str]] = &[&["a"], &["a", "b"], &["a", "b", "c"], &["a", "ä"], &["x", "中", "y"], &["a", "ﬁ", "b"]];
+const LETTER_SETS: &[&[&str]] = &[
+    &["a"],
+    &["a", "b"],
+    &["a", "b", "c"],
+    &["a", "ä"],
+    &["x", "中", "y"],
+    &["a", "ﬁ", "b"],
+    // the same letter precomposed and decomposed (composes under NFC/NFKC, decomposes under NFD/NFKD)
+    &["a", "a\u{308}", "ä"],
+    &["b", "e\u{301}"],
+    &["\u{1100}\u{1161}", "가", "a"],
+];
 
 fn natural_lines() -> Vec<String> {
     std::fs::read_to_string("/repo/resources/test/multi30k.txt")
@@ -142,7 +153,7 @@ struct ReplayInfo {
 impl Prop for C19 {
     type Case = Case;
     const ID: &'static str = "C19";
-    const RULE: &'static str = "corpora of 1-2 files x 0-4 lines x 1-5 words of length 1-7 over 1-3 letter alphabets (multi-byte and NFKC-expanding letters, double spaces), occasionally 1-3 natural sentences; x vocab_size in {256,320,384} x num_special_tokens 0..=70 (0-128 requested merges, usually more than the corpus supplies) x normalisation {None, NFKC, NFC, NFD, NFKD} x num_threads 0..=4 x max_lines_per_file. Oracle: table ids are exactly 0..n-1, n <= requested; replay with a full recount of all adjacent pair frequencies after every merge: entry i must be the concatenation of an adjacent pair whose frequency is positive and maximal (ties explored), training may stop early only when no pair is left; the table is well-formed and a BPETokenizer built from it round-trips the corpus lines and agrees with the table on ids. Non-trivial: a word with an overlapping or repeated pair, and (corpus exhausted before the request or >= 3 merges with a merged operand). Distinct = distinct serialised case.";
+    const RULE: &'static str = "corpora of 1-2 files x 0-4 lines x 1-5 words of length 1-7 over 1-3 letter alphabets (multi-byte and NFKC-expanding letters, the same letter precomposed and decomposed, Hangul jamo, double spaces), occasionally 1-3 natural sentences; x vocab_size in {256,320,384} x num_special_tokens 0..=70 (0-128 requested merges, usually more than the corpus supplies) x normalisation {None, NFKC, NFC, NFD, NFKD} x num_threads 0..=4 x max_lines_per_file. Oracle: table ids are exactly 0..n-1, n <= requested; replay with a full recount of all adjacent pair frequencies after every merge: entry i must be the concatenation of an adjacent pair whose frequency is positive and maximal (ties explored), training may stop early only when no pair is left; the table is well-formed and a BPETokenizer built from it round-trips the corpus lines and agrees with the table on ids. Non-trivial: a word with an overlapping or repeated pair, and (corpus exhausted before the request or >= 3 merges with a merged operand). Distinct = distinct serialised case.";
     const ESSENTIAL: &'static [&'static str] = &["exhausted", "overlap_or_repeat", "depth>=2", "tie", "threads>1", "zero_merges_requested", "full_request", "normalised"];
 
     fn budget(tier: Tier) -> Budget {
